@@ -20,12 +20,14 @@ pub struct Plan {
     pub dfrc: Option<(std::ops::Range<u32>, u32, Bounds)>,
     pub mid: Option<Bounds>,
     pub clock: Option<Bounds>,
+    /// curated lines from real starts (every prefix a root)
+    pub lines: Option<Bounds>,
     pub raws: Vec<(Box<dyn RawUniverse>, Bounds)>,
 }
 
 impl Plan {
     pub fn empty() -> Plan {
-        Plan { start: None, r960: None, dfrc: None, mid: None, clock: None, raws: Vec::new() }
+        Plan { start: None, r960: None, dfrc: None, mid: None, clock: None, lines: None, raws: Vec::new() }
     }
 }
 
@@ -61,6 +63,12 @@ pub fn run_plan(run: &mut Run, plan: &Plan, mon: &dyn Monitor, cand: &dyn CandMo
         let roots = clock_roots(&run.sink);
         let t = bfs(&roots, bd, mon, &run.sink);
         run.add("R-CLOCK", bj(bd, json!({"roots": roots.len(), "mode": "explicit-state BFS, exact keys", "clocks": "hm in {98,99,100} x fm in {65534,65535} x both colours"})), true, t0, t);
+    }
+    if let Some(bd) = &plan.lines {
+        let t0 = Instant::now();
+        let roots = line_roots(&run.sink);
+        let t = bfs(&roots, bd, mon, &run.sink);
+        run.add("R-LINES", bj(bd, json!({"roots": roots.len(), "lines": LINES.len(), "mode": "explicit-state BFS from every prefix of curated legal game lines from real start positions"})), true, t0, t);
     }
     if let Some(bd) = &plan.r960 {
         let t0 = Instant::now();
